@@ -481,7 +481,17 @@ func runHarness(work, repo, pkgPath, src, tag string) (string, bool) {
 	var out bytes.Buffer
 	cmd.Stdout = &out
 	cmd.Stderr = &out
-	cmd.Run()
+	// the go test process needs nothing from the encoder: let other replays prepare
+	locked := encMu.TryLock()
+	if locked {
+		// not held by this call chain (violation replays run under finish's lock)
+		encMu.Unlock()
+		cmd.Run()
+	} else {
+		encMu.Unlock()
+		cmd.Run()
+		encMu.Lock()
+	}
 	log := strings.ReplaceAll(out.String(), "\x00", "")
 	return log, strings.Contains(log, "LSVC-REPLAY: CONFIRMED")
 }
